@@ -11,10 +11,11 @@ import ast
 import os
 import re
 from decimal import Decimal, getcontext
+from .dec import highprec, HI
 
-getcontext().prec = 60
+# arithmetic on these Decimals is done in pbt.dec.HI (explicitly or under @highprec), never in the thread context
 
-SQRT12 = Decimal(12).sqrt()
+SQRT12 = HI.sqrt(Decimal(12))
 
 
 def module_path(name):
@@ -54,6 +55,7 @@ def decimals_of(text):
     return len(text.split(".", 1)[1]) if "." in text else 0
 
 
+@highprec
 def read_unc(text):
     """
     Read one value in the documented notations.  Returns a dict with
@@ -93,6 +95,7 @@ _RE_ABHEAD = re.compile(r"^(\d+)\s+([A-Za-z]+)\s+(\S+)")
 _RE_ABISO = re.compile(r"^[ \t]+(\d+)\s+%s" % _CELL)
 
 
+@highprec
 def mass_tables():
     """
     Returns dict with
@@ -159,6 +162,7 @@ class Bad(object):
 
 # ----------------------------------------------------------------------
 # density.py
+@highprec
 def density_table():
     """{symbol: Decimal or None} from the keyword names of ``element_densities = dict(...)``
     as written in the source; numbers from the literal's source text."""
@@ -192,6 +196,7 @@ def density_table():
 
 # ----------------------------------------------------------------------
 # constants.py
+@highprec
 def constants():
     """{name: Decimal} of the numeric literals assigned in constants.py"""
     path = module_path("constants")
